@@ -1,5 +1,5 @@
 (* C05 — no data message is ever accepted twice. *)
-From OTR Require Import Go.Base Proto.SmpTypes Proto.Keys Proto.KeysProofs.
+From OTR Require Import Go.Base Proto.SmpTypes Proto.Keys Proto.KeysProofs Proto.ReplayProofs.
 Open Scope N_scope.
 
 (* a message that has been accepted is refused when it arrives again, whatever rotation its acceptance caused *)
@@ -20,3 +20,10 @@ Theorem C05_counter_monotone : forall k rk sk ctr,
      macHistory k1 = macHistory k /\ oldMACKeys k1 = oldMACKeys k).
 Proof. exact checkMessageCounter_spec. Qed.
 Print Assumptions C05_counter_monotone.
+
+(* over whole histories: after a data message has been accepted, whatever the party then receives (accepted or
+   not) and sends - any number of key rotations on either side - the same message is refused *)
+Theorem C05_accepted_at_most_once : forall k d x pl k' xk, recvDataMsg k d x = Ok (pl, k', xk) ->
+  forall (evs : list kev) x', match recvDataMsg (fold_left kstep evs k') d x' with Ok _ => False | _ => True end.
+Proof. exact accepted_at_most_once. Qed.
+Print Assumptions C05_accepted_at_most_once.
